@@ -684,3 +684,12 @@ def _run(ctx, uberjob, Recorder, MemA, MemB, fqn, graphs, Call):
             ctx.compared("Notify.v composite_run vs recorded member events (global order, single worker)")
             if mt[2] is not None and got != mt[2]:
                 ctx.broke("correspondence Notify.v composite_run", {"case": mt[1], "model": got[:80], "impl": mt[2][:80]})
+
+
+_run_before_api = run
+
+
+def run(ctx):
+    _run_before_api(ctx)
+    import api_corr
+    api_corr.run_api_corr(ctx)
